@@ -45,16 +45,18 @@ Lemma visit_nodirs : forall s seen acc seen' acc',
   Forall nodirs acc -> visit fixed s seen acc = Ok (seen', acc') -> Forall nodirs acc'.
 Proof.
   induction s as [id sels frags _ IHf] using selset_ind'. intros seen acc seen' acc' Hacc H.
-  simpl in H. destruct (existsb (Nat.eqb id) seen); [inversion H; subst; exact Hacc|].
+  cbn [visit] in H. destruct (existsb (Nat.eqb id) seen); [inversion H; subst; exact Hacc|].
   destruct (keep_sels fixed sels) as [kept|e] eqn:Ek; [|discriminate].
   apply keep_sels_nodirs in Ek.
   assert (Hacc2 : Forall nodirs (acc ++ kept)) by (apply Forall_app; auto).
-  clear Hacc. revert H. generalize (acc ++ kept) Hacc2. clear Hacc2 Ek kept acc. revert seen.
-  induction IHf as [|[h b] t Hb _ IHt]; intros seen acc Hacc H.
-  - inversion H; subst. exact Hacc.
+  destruct (visit_frags (fun b sn ac => visit fixed b sn ac) fixed frags seen (acc ++ kept)) as [[seen1 acc1]|e] eqn:Ev; [|discriminate].
+  inversion H; subst. clear H Hacc Ek.
+  revert seen Hacc2 Ev. generalize (acc ++ kept). clear kept acc.
+  induction IHf as [|[h b] t Hb _ IHt]; intros acc seen Hacc Ev; cbn [visit_frags] in Ev.
+  - inversion Ev; subst. exact Hacc.
   - destruct (should_include fixed (fr_dirs h)) as [[|]|e]; try discriminate.
-    + destruct (visit fixed b seen acc) as [[seen1 acc1]|e] eqn:Ev; [|discriminate].
-      eapply (IHt seen1 acc1); [|exact H]. eapply Hb; eauto.
+    + destruct (visit fixed b seen acc) as [[seen2 acc2]|e] eqn:Evb; [|discriminate].
+      eapply (IHt acc2 seen2); [|exact Ev]. eapply Hb; eauto.
     + eapply IHt; eauto.
 Qed.
 
